@@ -106,7 +106,7 @@ impl Ctx {
                 let (ids, cap) = (v.ids(), v.cap());
                 // fill to capacity (and one beyond) more often than the general generator does
                 if spec.kind != Kind::Boxed && self.rng.chance(1, 2) {
-                    let room = if cap == usize::MAX { 2 } else { cap - ids.len() + 1 };
+                    let room = if cap == usize::MAX { 2 } else { cap.saturating_sub(ids.len()) + 1 };
                     let n = room.min(4);
                     let mut oracle = Vec::new();
                     for _ in 0..n {
@@ -436,7 +436,11 @@ macro_rules! split_with_settings {
                                 }
                             };
                             let follow = if ctx.rng.chance(1, 3) { 0 } else { ctx.rng.range(1, 4) as usize };
-                            ctx.exec_split(v, &spec, s, e, follow);
+                            let r = catch_unwind(AssertUnwindSafe(|| ctx.exec_split(v, &spec, s, e, follow)));
+                            if r.is_err() {
+                                clear_oracle();
+                                ctx.oracle("C16", format!("{} split_off({s}..{e}) on len={len} cap={cap}: the harness itself panicked while operating on the parts (inconsistent len/cap/contents reported by the implementation)", kind.tok()));
+                            }
                         }
                     }
                 }
